@@ -212,12 +212,6 @@ def _marple_body(ctx, case, modified):
         d = float(np.max(np.abs(a[:p] - aref)))
         ctx.check(d <= tola, "%s coefficients differ from the least-squares solution by %.3g (allowed %.3g, N=%d p=%d cond=%.3g)"
                   % (name, d, tola, N, p, c))
-    # agreement with the lstsq implementation of the package (same minimum, normalised per sample)
-    e2 = (spectrum.modcovar if modified else spectrum.arcovar)(x, p)[1]
-    ctx.check(abs(var - e2 / ((2.0 if modified else 1.0) * (N - p))) <= tolv,
-              "%s variance %r != %s error / %s = %r" % (name, var, "modcovar" if modified else "arcovar",
-                                                        "2(N-p)" if modified else "(N-p)",
-                                                        e2 / ((2.0 if modified else 1.0) * (N - p))))
 
 
 @sub("C14.marple_cov", strategy=marple_case(), quick=600, thorough=15000,
